@@ -188,6 +188,11 @@ impl SwiftField for Field59A {
         // Check if first line is account (/...)
         if lines[0].starts_with('/') {
             let identifier = &lines[0][1..];
+            if identifier.is_empty() {
+                return Err(ParseError::InvalidFormat {
+                    message: "Field 59A account must not be empty after '/'".to_string(),
+                });
+            }
             if identifier.len() <= 34 {
                 parse_swift_chars(identifier, "Field 59A account")?;
                 account = Some(identifier.to_string());
